@@ -93,4 +93,32 @@ def child (bufSize : Nat) (frames : List Bytes) : List Event :=
 def parent (bufSize : Nat) (children : List (List Bytes)) : List Event :=
   children.flatMap (child bufSize)
 
+/-! ### several frames in one read (since 0f56e69, F-17d) -/
+
+/-- `parseMessage` (rpc.go): the frame at the start of `b` — type, declared length, payload — and what follows it -/
+def parseMsg (b : Bytes) : Option ((Nat × Nat × Bytes) × Bytes) :=
+  if b.length < 3 then none else
+  let len := (b.getD 1 0).toNat * 256 + (b.getD 2 0).toNat
+  if b.length < 3 + len then none
+  else some (((b.getD 0 0).toNat, len, (b.drop 3).take len), b.drop (3 + len))
+
+/-- `readMessages`' loop: every complete frame, in order, up to the first thing that is not a frame -/
+def parseAll : Nat → Bytes → List (Nat × Nat × Bytes)
+  | 0, _ => []
+  | fuel + 1, b =>
+    match parseMsg b with
+    | none => []
+    | some (m, rest) => if rest.isEmpty then [m] else m :: parseAll fuel rest
+
+/-- one read of the control socket delivers at most `bufSize` bytes; every frame in it is a request of its own -/
+def readMsgs (bufSize : Nat) (read : Bytes) : List (Nat × Nat × Bytes) :=
+  parseAll (read.length + 1) (read.take bufSize)
+
+/-- `handleChild` since 0f56e69: each read's frames are dispatched in order -/
+def childReads (bufSize : Nat) (reads : List Bytes) : List Event :=
+  reads.flatMap fun r => (readMsgs bufSize r).flatMap fun m => parentStep m.1
+
+/-- the request frame a child sends for step `t` -/
+def frame (t : Fin 256) : Bytes := sendMsg t.val 2 [123, 125]
+
 end SamVerif.Hot
